@@ -14,7 +14,17 @@ import (
 
 var focus = []string{"node/class_generic.go", "node/new.go", "node/binary_assign.go", "data/type_generic.go", "node/class.go", "std/spawn.go"}
 
-var types = []string{"int", "string", "array", "U"}
+// (String and Int: the same scalar types in another letter case, as a Java-minded author writes them)
+var types = []string{"int", "string", "array", "U", "String", "Int"}
+
+// cn: name of the non-generic class declared with type t (class names are case-insensitive, so the
+// capitalised spellings need names of their own)
+func cn(t string) string {
+	if t == "String" || t == "Int" {
+		return "Cap" + t
+	}
+	return t
+}
 var values = []string{"int", "string", "array", "U", "V", "float", "bool", "null", "numstr", "SubU", "zero", "emptystr"}
 
 // (float, bool, null, a numeric string, an object of a subclass, 0 and "": the values at the edges of "is of type A")
@@ -239,6 +249,10 @@ class G4<A, B, C, D> {
   public C $c;
   public D $d;
 }
+class CCapString { public String $p; public ?String $q = null; public String|null $u = null; public function set(String $v) { return 1; } }
+class CCapInt { public Int $p; public ?Int $q = null; public Int|null $u = null; public function set(Int $v) { return 1; } }
+class C6CapString { public function __construct(public String $x) { } }
+class C6CapInt { public function __construct(public Int $x) { } }
 class Cint { public int $p; public ?int $q = null; public int|null $u = null; public function set(int $v) { return 1; } }
 class Cstring { public string $p; public ?string $q = null; public string|null $u = null; public function set(string $v) { return 1; } }
 class Carray { public array $p; public ?array $q = null; public array|null $u = null; public function set(array $v) { return 1; } }
@@ -268,7 +282,7 @@ function mkG3U() { return new G3<U>(); }
 
 func renderOp(op Op, idx int) string {
 	if op.K == "I" {
-		if op.Factory && (op.Class == "G1" || op.Class == "G3") {
+		if op.Factory && (op.Class == "G1" || op.Class == "G3") && cn(op.Args[0]) == op.Args[0] {
 			return fmt.Sprintf("$o%d = mk%s%s();\n", op.Inst, op.Class, op.Args[0])
 		}
 		return fmt.Sprintf("$o%d = new %s<%s>();\n", op.Inst, op.Class, strings.Join(op.Args, ", "))
@@ -290,11 +304,11 @@ func concreteScript() string {
 	b.WriteString(prelude)
 	for _, t := range types {
 		for _, v := range values {
-			fmt.Fprintf(&b, "__rec(\"c.p.%s.%s\", wp(new C%s(), %s));\n", t, v, t, valueExpr[v])
-			fmt.Fprintf(&b, "__rec(\"c.set.%s.%s\", wset(new C%s(), %s));\n", t, v, t, valueExpr[v])
-			fmt.Fprintf(&b, "__rec(\"c.q.%s.%s\", wq(new C%s(), %s));\n", t, v, t, valueExpr[v])
-			fmt.Fprintf(&b, "__rec(\"c.u.%s.%s\", wu(new C%s(), %s));\n", t, v, t, valueExpr[v])
-			fmt.Fprintf(&b, "__rec(\"c.ctor.%s.%s\", (function() { try { $x = new C6%s(%s); return \"A\"; } catch (\\Throwable $e) { return \"R\"; } })());\n", t, v, t, valueExpr[v])
+			fmt.Fprintf(&b, "__rec(\"c.p.%s.%s\", wp(new C%s(), %s));\n", t, v, cn(t), valueExpr[v])
+			fmt.Fprintf(&b, "__rec(\"c.set.%s.%s\", wset(new C%s(), %s));\n", t, v, cn(t), valueExpr[v])
+			fmt.Fprintf(&b, "__rec(\"c.q.%s.%s\", wq(new C%s(), %s));\n", t, v, cn(t), valueExpr[v])
+			fmt.Fprintf(&b, "__rec(\"c.u.%s.%s\", wu(new C%s(), %s));\n", t, v, cn(t), valueExpr[v])
+			fmt.Fprintf(&b, "__rec(\"c.ctor.%s.%s\", (function() { try { $x = new C6%s(%s); return \"A\"; } catch (\\Throwable $e) { return \"R\"; } })());\n", t, v, cn(t), valueExpr[v])
 		}
 	}
 	return b.String()
@@ -452,7 +466,10 @@ func exec(t *testing.T, x any, s hx.Sched) *hx.Outcome {
 			if op.Mem == "q" || op.Mem == "u" || op.Mem == "ctor" {
 				ckey = fmt.Sprintf("c.%s.%s.%s", op.Mem, targ, op.Val)
 			}
-			if op.Mem == "fill" || op.Mem == "made" || op.Mem == "kw" || op.Mem == "kwn" {
+			if op.Mem == "fill" || op.Mem == "made" || op.Mem == "kw" || op.Mem == "kwn" || cn(targ) != targ {
+				// (capitalised scalar names: origami reads `String` as string in a property declaration but as
+				// a class named String in `?String`, in parameters and in type arguments — C07's subject; only the
+				// history oracle is applied to them)
 				ckey = "" // what `new T()` builds has no non-generic counterpart; the solo oracle covers it
 			}
 			if want, ok := concrete[ckey]; ok && sOK != want {
